@@ -40,7 +40,24 @@ func (s genericSortable) Less(i, j int) bool {
 // that iterating over a map or converting it to an array does not depend on Go's
 // randomized map iteration order.
 func SortedMapKeys(m reflect.Value) []reflect.Value {
-	keys := m.MapKeys()
+	keys, _ := SortedMapEntries(m)
+	return keys
+}
+
+// SortedMapEntries returns the keys of a map in the order of SortedMapKeys, and
+// the values they map to. (The values are taken while ranging over the map: a
+// key that is NaN cannot be looked up.)
+func SortedMapEntries(m reflect.Value) (keys, elems []reflect.Value) {
+	keys = make([]reflect.Value, 0, m.Len())
+	elemOf := make(map[int]reflect.Value, m.Len())
+	for i, iter := 0, m.MapRange(); iter.Next(); i++ {
+		keys = append(keys, iter.Key())
+		elemOf[i] = iter.Value()
+	}
+	order := make([]int, len(keys))
+	for i := range order {
+		order[i] = i
+	}
 	rank := func(k reflect.Value) int {
 		switch v := ToLiquid(k.Interface()); {
 		case v == nil:
@@ -53,9 +70,10 @@ func SortedMapKeys(m reflect.Value) []reflect.Value {
 			return 3
 		}
 	}
-	sort.Slice(keys, func(i, j int) bool {
-		a, b := keys[i].Interface(), keys[j].Interface()
-		if ra, rb := rank(keys[i]), rank(keys[j]); ra != rb {
+	sort.Slice(order, func(i, j int) bool {
+		ki, kj := keys[order[i]], keys[order[j]]
+		a, b := ki.Interface(), kj.Interface()
+		if ra, rb := rank(ki), rank(kj); ra != rb {
 			return ra < rb
 		}
 		if Less(a, b) || Less(b, a) {
@@ -63,7 +81,12 @@ func SortedMapKeys(m reflect.Value) []reflect.Value {
 		}
 		return fmt.Sprintf("%T%v", a, a) < fmt.Sprintf("%T%v", b, b)
 	})
-	return keys
+	sorted := make([]reflect.Value, len(keys))
+	elems = make([]reflect.Value, len(keys))
+	for i, o := range order {
+		sorted[i], elems[i] = keys[o], elemOf[o]
+	}
+	return sorted, elems
 }
 
 // SortByProperty sorts maps on their key indices.
